@@ -159,8 +159,8 @@ impl Driver for CancelTwin {
                 }
                 3 => {
                     let last = v.log.ops.last().unwrap();
-                    let idle = (matches!((&last.outcome, last.kind), (Outcome::CallerTimeout, "poll")) || (matches!(last.outcome, Outcome::Err(_)) && last.kind == "poll")) && self.drain_left < 60;
-                    if self.drain_left == 0 || idle || !v.has_handle {
+                    let idle = matches!((&last.outcome, last.kind), (Outcome::CallerTimeout, "poll")) && self.drain_left < 60;
+                    if self.drain_left == 0 || idle || !v.has_handle || !v.is_connected {
                         self.stage = 4;
                         continue;
                     }
@@ -373,7 +373,7 @@ impl Check for C13 {
             }
             let before = out.violations.len();
             if let Some((what, msg)) = diff(&a_obs, &b_obs) {
-                let partial = last_cancel.is_some_and(|lc| lc.out_after > lc.out_before);
+                let partial = bops.iter().any(|o| blog.ops[*o].outcome == Outcome::Cancelled && blog.ops[*o].out_after > blog.ops[*o].out_before);
                 let sig = if kind == "disconnect" {
                     format!("C13/disconnect/{}", if partial { "cancelled-after-bytes-written" } else { what.as_str() })
                 } else {
